@@ -89,6 +89,43 @@ pub proof fn pf_field_access_shape(n: &SyntaxNode)
     requires tree_wf(n), n.kind_s() == SyntaxKind::FieldAccess,
     ensures exists|p: int| field_access_shape(n.children_s(), p),
 {}
+/// ... and exactly one field name (index `field_idx_s`) stands behind the dot
+pub uninterp spec fn field_idx_s(n: &SyntaxNode) -> int;
+#[verifier::external_body]
+pub proof fn pf_field_access_field(n: &SyntaxNode, p: int)
+    requires tree_wf(n), n.kind_s() == SyntaxKind::FieldAccess, field_access_shape(n.children_s(), p),
+    ensures p < field_idx_s(n) < n.children_s().len(), n.children_s()[field_idx_s(n)].kind_s() == SyntaxKind::Ident,
+        forall|i: int| p < i < n.children_s().len() && (#[trigger] n.children_s()[i]).kind_s() == SyntaxKind::Ident ==> i == field_idx_s(n),
+{}
+/// the words of a field access without comments: target, dot, field name
+pub proof fn lemma_field_access_words(n: &SyntaxNode)
+    requires tree_wf(n), n.kind_s() == SyntaxKind::FieldAccess, !has_comment_child(n.children_s()),
+    ensures n.children_s().len() > 0, 0 < field_idx_s(n) < n.children_s().len(),
+        sig_leaves(n) =~= sig_leaves(n.children_s()[0]) + seq!["."@] + sig_leaves(n.children_s()[field_idx_s(n)]),
+        word_of("."@) =~= seq!["."@],
+{
+    let ch = n.children_s();
+    pf_field_access_shape(n); pf_children(n); pf_sig(n);
+    let p = choose|p: int| field_access_shape(ch, p);
+    pf_field_access_field(n, p);
+    let fi = field_idx_s(n);
+    reveal_strlit(".");
+    assert forall|k: int| 0 <= k < ch.len() && k != 0 && k != p && k != fi implies sig_leaves(#[trigger] ch[k]).len() == 0 by {
+        pf_sig(ch[k]);
+        assert(is_trivia_kind(ch[k].kind_s()));
+        assert(!is_comment_kind(ch[k].kind_s()));
+    }
+    lemma_sig_concat_three(ch, 0, p, fi);
+    pf_sig(ch[p]); pf_token_text(ch[p]);
+    assert("."@ =~= seq!['.']);
+    let d = "."@;
+    assert(d.len() == 1 && d[0] == '.');
+    assert(!is_blank(d)) by { assert(d[0] != ' '); }
+    assert(!is_opt_punct(d)) by { assert(seq![','][0] == ',' && seq!['('][0] == '(' && seq![')'][0] == ')' && seq!['{'][0] == '{' && seq!['}'][0] == '}' && seq![';'][0] == ';'); }
+    assert(!is_bc(d) && !(d =~= seq!['(', ':']));
+    assert(sig_leaves(ch[p]) =~= seq!["."@]);
+}
+
 /// PF21: a binary expression whose operator is not `not in` is its left operand, then (behind comments / blanks only) the operator
 /// token, then (comments, blanks and) the right operand
 pub open spec fn binary_shape(ch: Seq<&SyntaxNode>, p: int) -> bool {
